@@ -30,7 +30,14 @@ KANI_PAIR = [
     ('round_mut_ptr_up_to_unchecked.', 'k_round_ptr'),
     ('is_pointer_aligned_to.', 'k_round_ptr'),
     ('ncmd.', 'k_ncmd'),
+    ('fast.aligned', 'k_fast_448_m8'),
+    ('fast.inv', 'k_fast_448_m8'),
     ('fast.', 'k_fast_448'),
+    ('debug_assert.never_fires<-try_alloc_layout_fast', 'k_fast_448_m8'),
+    ('debug_assert.never_fires<-dealloc', 'k_dealloc_m8'),
+    ('debug_assert.never_fires<-shrink', 'k_shrink_m8'),
+    ('shrink.aligned', 'k_shrink_m8'),
+    ('grow.aligned', 'k_grow_align'),
     ('try_alloc_layout_fast.', 'k_fast_448'),
     ('dealloc.', 'k_dealloc'),
     ('shrink.', 'k_shrink'),
@@ -42,7 +49,11 @@ KANI_PAIR = [
     ('alloc_try_with.', 'k_rewind'),
     ('try_alloc_try_with.', 'k_rewind'),
     ('new_chunk.', 'k_new_chunk'),
-    ('reset.', 'k_reset_1'),
+    ('reset.', 'k_list_1'),
+    ('dealloc_chunk_list.', 'k_list_1'),
+    ('drop.', 'k_list_1'),
+    ('next.', 'k_list_1'),
+    ('slow.', 'k_list_1'),
 ]
 
 
@@ -56,7 +67,8 @@ def run_native(spec, repo):
     try:
         shutil.copytree(src, os.path.join(tmp, 'c'))
         ct = os.path.join(tmp, 'c', 'Cargo.toml')
-        open(ct, 'w').write(open(ct).read().replace('path = "/repo"', 'path = "%s"' % repo))
+        txt = open(ct).read().replace('path = "/repo"', 'path = "%s"' % repo)
+        open(ct, 'w').write(txt)
         outs = []
         found = False
         for prof in ([], ['--release']):
